@@ -134,6 +134,15 @@ def make_run(W, shape, known_active=None):
                 led.own[a].append(m)
             elif k == "use":
                 probe(op[1])
+            elif k == "latereg":
+                # the node has been used and nothing derives from it: registering is allowed and every later call,
+                # including recursion from its inherited methods, must see the new method
+                _, a, m = op
+                probe(a)
+                nodes[a].register(hs[m], priority=prio(m))
+                led.own[a].append(m)
+                refs.clear()
+                probe(a)
         for v in reversed(range(len(nodes))):   # children first, then every ancestor must still be itself
             probe(v)
         for v in range(len(nodes)):
@@ -186,6 +195,14 @@ def gen_graph(rng, L):
                 continue
             m = rng.choice(cand)
             ops.append(("reg", a, m)); own[a].append(m)
+    # half of the histories end with a registration on an already used leaf node (one nobody derives from)
+    if rng.random() < 0.5:
+        n = len(own)
+        leaves = [v for v in range(n) if not any(v in par[w] for w in range(n))]
+        v = rng.choice(leaves)
+        cand = [m for m in (3, 4, 5, 6, 7) if all(key(m) != key(o) for o in own[v])]
+        if cand:
+            ops.append(("latereg", v, rng.choice(cand)))
     return [list(o) for o in ops]
 
 
@@ -198,6 +215,8 @@ def gen_shapes(tier, seed):
     fam.append([["new", [0, 3, 5]], ["variant", 0, 8, False], ["variant", 1, 6, False], ["copy", 2, False], ["reg", 3, 7]])
     fam.append([["new", [0, 1, 5]], ["variant", 0, 4, True], ["variant", 1, 7, True], ["variant", 0, 3, False]])
     fam.append([["new", [0, 9, 5]], ["variant", 0, 3, False], ["variant", 1, 4, False]])
+    fam.append([["new", [0, 2, 5]], ["variant", 0, 3, False], ["latereg", 1, 4]])
+    fam.append([["new", [0, 1, 5]], ["copy", 0, True], ["latereg", 1, 3], ["latereg", 1, 7]])
     N = 600 if tier == "quick" else 8000
     shapes = [dict(n=3, ops=h) for h in fam]
     for _ in range(N):
@@ -224,7 +243,7 @@ def main(tier, seed):
         PID, tier, seed, t0, results,
         bounds=dict(classes=3, nodes="<= 5 functions", pool="10 methods (one defined in a factory, reaching recurse through a closure cell): list/dict containers via recurse, tuple container naming the root function, an "
                     "overriding list container, leaves on K0/K1/K2/object (one overriding, one using call_next)",
-                    graphs="random build histories of 3-6 operations (new / copy / variant / add_mixins / register) + 4 documented patterns; forests "
+                    graphs="random build histories of 3-6 operations (new / copy / variant / add_mixins / register), half of them followed by a registration on an already used leaf node, + 7 documented patterns; forests "
                            "with fan-in <= 2, depth <= 4", inputs="6 nested inputs (lists, tuples, dicts to depth 3 over instances of the 3 classes and object())",
                     priorities="symbolic integers", hierarchy="every partial order (symbolic)"),
         rule="one state = one graph x class of (hierarchy, priorities); non-trivial = some probe entered >= 2 methods",
